@@ -668,6 +668,26 @@ func (c *Ctx) c05StatusReadsIn(top *ssa.Function, o *Origins, ln *lnFacts) {
 						found = true
 					}
 				}
+				// the error of a helper new on this tree that hands on the error of exactly these calls
+				// (`return client.SendPayment(..)` moved into payQuote())
+				if !found && a.K == "call" && a.Call != nil {
+					if g := a.Call.Common().StaticCallee(); g != nil && g.Blocks != nil && c.P.IsNewFunc(g) && a.Idx == g.Signature.Results().Len()-1 {
+						tails := tailErrorCalls(g)
+						okT := len(tails) > 0
+						for _, tc := range tails {
+							in := false
+							for _, cc := range calls {
+								if ssa.CallInstruction(tc) == cc {
+									in = true
+								}
+							}
+							if !in {
+								okT = false
+							}
+						}
+						found = okT
+					}
+				}
 				if !found {
 					okAll = false
 				}
